@@ -678,6 +678,50 @@ def run_process_sets(_):
     return part.result()
 
 
+def run_instance_chains(_):
+    """P.x in a query for processes made through chains of partial instances: every argument reaches the member's type, whatever
+    the order and the names of the forwarded parameters and whatever was declared in between"""
+    part = engine.Part()
+    w = engine.worker("fast")
+    fills = ["", "int f(int z) { return z; } ", "typedef struct { int x; } Rec; Rec rr; ", "const int K = 2; int arr[K]; "]
+    systems = [("Q1", "Q(const int k) = P(k, 2); Q1 = Q(3); system Q1;"),
+               ("R1", "Q(const int k) = P(k, 2); R(const int j) = Q(j); R1 = R(3); system R1;"),
+               ("Q1", "Q(const int k, const int l) = P(l, k); Q1 = Q(2, 3); system Q1;"),
+               ("R1", "int sv; Q(const int k) = P(k, 2); int sw; R(const int j) = Q(j); R1 = R(3); system R1;"),
+               ("Q1", "Q(const int b) = P(b, 2); Q1 = Q(3); system Q1;"),
+               ("Q1", "Q(const int a) = P(3, a); Q1 = Q(2); system Q1;"),
+               ("Q1", "Q(const int b, const int a) = P(b, a); Q1 = Q(3, 2); system Q1;"),
+               ("S1", "Q(const int b, const int a) = P(a, b); R(const int a) = Q(a, 3); S1 = R(2); system S1;"),
+               ("S1", "Q(const int k, const int l) = P(l, k); R(const int l, const int k) = Q(k, l); S1 = R(3, 2); system S1;"),
+               ("P1", "P1 = P(3, 2); system P1;")]
+    want = {"m": "(RANGE (INT) <(CONSTANT:INT 0)> <(CONSTANT:INT 3)>)", "w": "(RANGE (INT) <(CONSTANT:INT 2)> <(PLUS (CONSTANT:INT 3) (CONSTANT:INT 2))>)",
+            "c": "(ARRAY (BOOL) (RANGE (INT) <(CONSTANT:INT 0)> <(MINUS (CONSTANT:INT 3) (CONSTANT:INT 1))>))"}
+    for pg, pt, (pn, sy) in itertools.product(fills, fills, systems):
+        doc = X.nta(pg + "int g;", [X.template("P", params="const int a, const int b", decl=pt + "int[0,a] m; int[b,a+b] w; bool c[a];",
+                                               locations=[X.location("id0", "L0")], init="id0")], sy)
+        qs = [("m", "E<> %s.m >= 0" % pn), ("w", "E<> %s.w >= 0" % pn), ("c", "E<> %s.c[0]" % pn)]
+        rp = {"op": "queries", "ctx": {"kind": "xml", "text": doc}, "items": [q for _, q in qs], "symtypes": True}
+        r = w.call_safe(rp, timeout=60)
+        part.count()
+        if r.get("died"):
+            engine.check_crash(part, PID, r, "instance chain " + sy, rp)
+            continue
+        if r["ctx"]["errors"] or r["ctx"]["exc"]:
+            raise RuntimeError("C07 generator bug: instance-chain model rejected: %s %s" % (sy, str(r["ctx"])[:300]))
+        for (mem, q), x in zip(qs, r["results"]):
+            part.count()
+            part.nontrivial_case("instance-chain:%s|%s|%s|%s" % (pg[:12], pt[:12], sy, mem))
+            sx = x.get("sexpr") or ""
+            if (":%s:%s " % (mem, want[mem])) not in sx:
+                part.outcome("instance-chain:misbound")
+                part.violation("instance-chain:member-type:%s:%s" % (mem, re.sub(r"\d+", "N", sy.split(";")[0])[:60]),
+                               "`%s` with `%s` (effectively P(3, 2)): the member's type is not %s: %s %s" %
+                               (q, sy, want[mem], sx[:260], [e["msg"] for e in x.get("err", [])][:2]), dict(rp, items=[q]))
+            else:
+                part.outcome("instance-chain:arguments-substituted")
+    return part.result()
+
+
 def main():
     t = engine.tier()
     n_sub = sum(1 for _ in subsets())
@@ -703,6 +747,7 @@ def main():
     rep.merge(run_dynamic(None))
     rep.merge(run_dynamic_parameters(None))
     rep.merge(run_process_sets(None))
+    rep.merge(run_instance_chains(None))
     rep.assumptions = ["the declaration a use is bound to is identified by the upper bound of the symbol's declared range",
                        "a parameter and a local of the same name in one frame are a duplicate definition and are not enumerated"]
     sys.exit(rep.finish())
